@@ -43,6 +43,7 @@ type Op struct {
 }
 
 type Scenario struct {
+	Pre   int    `json:"pre"` // the first Pre ops are applied to the in-memory registry underneath the stack (0: the -pre flag decides)
 	Cat   string `json:"cat"` // "mc" or "rand"
 	Imm   bool   `json:"imm"`
 	Stack string `json:"stack"`
